@@ -79,6 +79,7 @@ def _base(rng):
         "aug": rng.random() < 0.25,  # default augmentations on
         "is_rgb": rng.random() < 0.25,  # grayscale assets converted to 3 channels
         "max_hw": rng.choice([None, None, 96, 128]),  # size matching to a user-set maximum
+        "bb_stride": rng.choice([2, 2, 1]),  # the backbone may decode finer than any head needs (output_stride 1, heads at 2 / 4)
         "seed_none": rng.random() < 0.15,  # trainer_config.seed: null (schema default)
         "steps_none": rng.random() < 0.2,  # steps_per_epoch derived from the dataset length
         "ckpt_path_none": rng.random() < 0.12,  # save_ckpt_path left at its default ("./")
@@ -96,13 +97,13 @@ def gen_plan(rng, index, tier):
         p.update(ENUM_CONFIGS[index])
         p.update({"mode": "virtual", "fault_at": None, "data": "synthetic", "epochs": 1, "save_last": True,
                   "delete_chunks": True, "explicit_chunks": True, "tmp_same_fs": False, "wandb_mode": None,
-                  "low_memory": False, "login_fault": False, "rerun": False, "lr_sched": "plateau", "optimizer": "Adam", "crop_auto": False, "min_crop_size": None, "early_null": False, "seed_none": False, "steps_none": False, "ckpt_path_none": False, "profiler": None, "aug": False, "is_rgb": False, "max_hw": None})
+                  "low_memory": False, "login_fault": False, "rerun": False, "lr_sched": "plateau", "optimizer": "Adam", "crop_auto": False, "min_crop_size": None, "early_null": False, "seed_none": False, "steps_none": False, "ckpt_path_none": False, "profiler": None, "aug": False, "is_rgb": False, "max_hw": None, "bb_stride": 2})
     elif index < len(ENUM_CONFIGS) + n_enum:
         k = index - len(ENUM_CONFIGS)
         p.update(ENUM_CONFIGS[k // ENUM_EVENTS])
         p.update({"mode": "crash", "fault_at": k % ENUM_EVENTS, "data": "synthetic", "epochs": 1, "save_last": True,
                   "delete_chunks": True, "explicit_chunks": True, "tmp_same_fs": False, "wandb_mode": None,
-                  "low_memory": False, "login_fault": False, "rerun": False, "lr_sched": "plateau", "optimizer": "Adam", "crop_auto": False, "min_crop_size": None, "early_null": False, "seed_none": False, "steps_none": False, "ckpt_path_none": False, "profiler": None, "aug": False, "is_rgb": False, "max_hw": None})
+                  "low_memory": False, "login_fault": False, "rerun": False, "lr_sched": "plateau", "optimizer": "Adam", "crop_auto": False, "min_crop_size": None, "early_null": False, "seed_none": False, "steps_none": False, "ckpt_path_none": False, "profiler": None, "aug": False, "is_rgb": False, "max_hw": None, "bb_stride": 2})
     else:
         r = rng.random()
         if r < 0.45:
@@ -127,7 +128,7 @@ def gen_plan(rng, index, tier):
 
 def describe(plan):
     return {k: plan[k] for k in ("model_type", "fw", "use_wandb", "wandb_mode", "save_ckpt", "save_last", "delete_chunks",
-                                 "origin", "explicit_chunks", "tmp_same_fs", "data", "epochs", "mode", "fault_at", "low_memory") if k in plan} | {k: plan.get(k) for k in ("login_fault", "rerun", "rerun_other_model", "resume", "lr_sched", "early_null", "optimizer", "crop_auto", "min_crop_size", "yaml_filename", "seed_none", "steps_none", "ckpt_path_none", "profiler", "aug", "is_rgb", "max_hw")}
+                                 "origin", "explicit_chunks", "tmp_same_fs", "data", "epochs", "mode", "fault_at", "low_memory") if k in plan} | {k: plan.get(k) for k in ("login_fault", "rerun", "rerun_other_model", "resume", "lr_sched", "early_null", "optimizer", "crop_auto", "min_crop_size", "yaml_filename", "seed_none", "steps_none", "ckpt_path_none", "profiler", "aug", "is_rgb", "max_hw", "bb_stride")}
 
 
 def shrink(plan):
